@@ -312,4 +312,8 @@ VARIANTS = [
     V('C20', 'S', 'loaded project returned through a local', PRJ, "            return Project.load(dir)\n        except (FileNotFoundError", "            loaded = Project.load(dir)\n            return loaded\n        except (FileNotFoundError"),
     V('C04', 'B', 'dict keys not de-duplicated', 'jedi/api/strings.py', "sorted(set(_get_python_keys(dicts)), key=lambda x: repr(x))", "sorted(_get_python_keys(dicts), key=lambda x: repr(x))", 'C04.i'),
     V('C04', 'S', 'dict keys de-duplicated through a local', 'jedi/api/strings.py', "    for dict_key in sorted(set(_get_python_keys(dicts)), key=lambda x: repr(x)):", "    keys = set(_get_python_keys(dicts))\n    for dict_key in sorted(keys, key=lambda x: repr(x)):"),
+    V('C01', 'B', 'named-param goto entered for everything but classdef', 'jedi/inference/names.py', "            if trailer.type in ('trailer', 'decorator'):", "            if trailer.type != 'classdef':", 'C01.j'),
+    V('C01', 'S', 'named-param goto: two equality tests', 'jedi/inference/names.py', "            if trailer.type in ('trailer', 'decorator'):", "            if trailer.type == 'trailer' or trailer.type == 'decorator':"),
+    V('C01', 'B', 'left operand of a string addition taken untested', 'jedi/api/file_name.py', "                if child_node.type in ('operator', 'keyword'):", "                if child_node.type in ('keyword',):", 'C01.j'),
+    V('C01', 'S', 'left operand test spelled as two comparisons', 'jedi/api/file_name.py', "                if child_node.type in ('operator', 'keyword'):", "                if child_node.type in ('operator', 'keyword', 'error_leaf'):"),
 ]
